@@ -237,7 +237,8 @@ op("vadd0", ["vec"], ["vec"], "({0} + (0, 0, 0))", lambda a: _vmap(lambda x: x +
 op("vsub0", ["vec"], ["vec"], "({0} - Vector(0, 0, 0))", lambda a: _vmap(lambda x: x - 0, a),
    identity=True, approx=True)
 op("vmul", ["vec", "num"], ["vec"], "({0} * {1})", lambda a, b: _vmap(lambda x: x * b, a), approx=True)
-op("vrmul", ["num", "vec"], ["vec"], "({0} * {1})", lambda a, b: _vmap(lambda x: x * a, b), approx=True)
+# (result not reused: a numpy-scalar sample times a Vector is an ndarray in plain Python too)
+op("vrmul", ["num", "vec"], ["vecres"], "({0} * {1})", lambda a, b: _vmap(lambda x: x * a, b), approx=True)
 op("vdiv", ["vec", "pos"], ["vec"], "({0} / {1})", lambda a, b: _vmap(lambda x: x / b, a), approx=True)
 op("vx", ["vec"], ["num"], "{0}.x", lambda a: _c(a)[0])
 op("vz", ["vec"], ["num"], "{0}.z", lambda a: _c(a)[2])
@@ -342,7 +343,7 @@ op("z_uniform3", ["num", "num"], ["num"], "Uniform({0}, {0}, {0}) + {1}", lambda
 op("z_normal", ["num"], ["num"], "Normal({0}, 0)", lambda a: a, lazy_only=True)
 op("z_drange", ["int"], ["num", "int"], "DiscreteRange({0}, {0})", lambda a: a, lazy_only=True)
 op("z_discrete", ["num"], ["num"], "Discrete({{{0}: 1, {0} + 0: 2}})", lambda a: a, lazy_only=True)
-op("z_tnormal", ["num"], ["num"], "TruncatedNormal({0}, 1, -1000, 1000) * 0 + {0}", lambda a: a,
+op("z_tnormal", ["num"], ["num"], "TruncatedNormal({0}, 1, -1e12, 1e12) * 0 + {0}", lambda a: a,
    lazy_only=True, approx=True)
 op("z_range_op", ["num", "num"], ["num"], "(Range({0}, {0}) * 2 + {1})", lambda a, b: a * 2 + b,
    lazy_only=True)
@@ -365,7 +366,7 @@ sop("lz_range_arg", [], "Range(LZ, LZ)", lambda z: z)
 sop("lz_range_arg2", ["num"], "(Range(LZ, LZ + 0) + {0})", lambda z, a: z + a)
 sop("lz_normal_arg", [], "Normal(LZ, 0)", lambda z: z)
 sop("lz_normal_arg2", ["pos"], "(Normal(LZ, {0}) * 0 + LZ)", lambda z, a: z)
-sop("lz_tnormal_arg", [], "(TruncatedNormal(LZ, 1, -100, 100) * 0 + LZ)", lambda z: z)
+sop("lz_tnormal_arg", [], "(TruncatedNormal(LZ, 1, -1e12, 1e12) * 0 + LZ)", lambda z: z)
 sop("lz_drange_arg", [], "DiscreteRange(2, LZ * 0 + 2.5)", lambda z: 2)
 sop("lz_uniform_arg", ["Knum"], "Uniform(LZ + {0}, LZ + {0})", lambda z, c: z + c)
 sop("lz_discrete_arg", [], "Discrete({{LZ: 1, LZ + 0: 3}})", lambda z: z)
@@ -473,6 +474,14 @@ def emit(case):
 def same(a, b, approx=False):
     from scenic.core.vectors import Orientation, Vector
 
+    if isinstance(a, np.ndarray) or isinstance(b, np.ndarray):
+        # a numpy scalar sample (e.g. from TruncatedNormal) times a Vector is an ndarray in plain
+        # Python as well: compare coordinates, whatever the sequence type
+        try:
+            ca, cb = _c(a), _c(b)
+        except TypeError:
+            return False
+        return len(ca) == len(cb) and all(same(x, y, approx) for x, y in zip(ca, cb))
     if isinstance(a, Orientation) or isinstance(b, Orientation):
         if not (isinstance(a, Orientation) and isinstance(b, Orientation)):
             return False
@@ -977,7 +986,7 @@ def strategy():
 
 
 def plan(tier, seed, jobs):
-    n = 60 if tier == "quick" else 1200
+    n = 60 if tier == "quick" else 4000
     return [{"seed": seed * 1000 + k, "n": n} for k in range(jobs)]
 
 
